@@ -13,6 +13,10 @@ library defaults) and a list of client-level operations on a few proxies:
                             cut_reply (the daemon handles it, the answer is lost)
   ["close", h]              .close() on it
   ["release", p]            p._pyroRelease()          (connection ends)
+  ["relrace", p, k, inner]  p._pyroRelease() while another daemon thread acts in the middle of the daemon's disconnect
+                            handling: at the k-th preemption point inside Daemon._clientDisconnect (every read of the
+                            stream table and every time.time() call there) `inner` runs to completion:
+                            ["close", s] = close_stream of the s-th stream (what the oneway thread does), ["hk"] = housekeeping
   ["reconnect", p]          p._pyroReconnect()        (connection ends, new connection)
   ["rawnext", p, s]         proxy p asks the daemon for the next item of the s-th opened stream by id
                             (a client that "comes back" over another connection); s = -1: unknown id
@@ -33,7 +37,9 @@ GEN = ["GenStreams"]
 ASSUMPTIONS = [
     "stream ids (uuid4) are unique and unguessable: the model numbers streams by order of creation, and histories only name ids that exist (or one id that never exists)",
     "each daemon operation (get_next_stream_item, close_stream, _clientDisconnect, _housekeeping) is an atomic step; races of the housekeeper thread inside a running get_next_stream_item are not modelled",
-    "oneway close_stream calls are joined before the next step (the daemon runs them in a thread of their own)",
+    "oneway close_stream calls are joined before the next step (the daemon runs them in a thread of their own), except in `relrace` steps, where a close_stream / housekeeping run is interleaved into Daemon._clientDisconnect at a chosen preemption point",
+    "preemption points inside _clientDisconnect are the reads of the stream table and the time.time() calls; one entry's re-read + write is taken as atomic: the other thread closing / reaping that very entry between its re-read and its write is not explored (in the unmodified code that narrow window exists and would re-insert the closed stream as lingering)",
+    "proxies run with _pyroMaxRetries 0, 1 or 2: stream item fetches are not idempotent and must not be retried",
     "time is whole seconds on a virtual clock (time.time as seen by Pyro5.server); the clock never reads 0",
     "transport failures are injected in the middle of next() only (request lost / reply lost, then the proxy releases its connection); an item whose reply is lost in transit is gone (at-most-once), and the model says so; stale/delayed replies belong to C03",
     "fewer than 65535 calls per proxy in one history (the client's 16-bit sequence wrap is not modelled)",
@@ -153,6 +159,80 @@ def join_oneways():
             t.join(5)
 
 
+RACE = {"in_disc": 0, "armed": None, "count": 0, "k": 0, "open_key": None, "victim": None}
+
+
+def _race_point(key=None, clock=False):
+    """a preemption point inside Daemon._clientDisconnect: run the pending inner action at the k-th one.
+    An entry's window is open from its re-read to its write; the other thread acting on that very entry inside
+    that window (possible in the unmodified code too, see ASSUMPTIONS) is not explored: such a point is skipped."""
+    if not RACE["in_disc"]:
+        return
+    if key is not None:
+        RACE["open_key"] = key
+    if RACE["armed"] is None:
+        return
+    if clock and RACE["open_key"] is not None and RACE["victim"] in (None, RACE["open_key"]):
+        return
+    RACE["count"] += 1
+    if RACE["count"] >= RACE["k"]:
+        fn, RACE["armed"] = RACE["armed"], None
+        fn()
+
+
+class HookDict(dict):
+    """the daemon's stream table with a preemption point at every read access"""
+    def get(self, k, *a):
+        _race_point(k)
+        return dict.get(self, k, *a)
+
+    def __getitem__(self, k):
+        _race_point(k)
+        return dict.__getitem__(self, k)
+
+    def __contains__(self, k):
+        _race_point(k)
+        return dict.__contains__(self, k)
+
+    def __iter__(self):
+        _race_point()
+        return dict.__iter__(self)
+
+    def items(self):
+        _race_point()
+        return dict.items(self)
+
+    def keys(self):
+        _race_point()
+        return dict.keys(self)
+
+    def values(self):
+        _race_point()
+        return dict.values(self)
+
+    def __setitem__(self, k, v):
+        RACE["open_key"] = None
+        dict.__setitem__(self, k, v)
+
+    def __delitem__(self, k):
+        RACE["open_key"] = None
+        dict.__delitem__(self, k)
+
+    def pop(self, k, *a):
+        RACE["open_key"] = None
+        return dict.pop(self, k, *a)
+
+
+def _hook_clock():
+    from tools.lib import loopback
+
+    class HookClock(loopback.VirtualClock):
+        def time(self):
+            _race_point(clock=True)
+            return self.now
+    return HookClock
+
+
 def run_impl(case):
     """Run the real client and daemon. Returns {"cfg":…, "steps": [{"resp": [tag, val], "table": [[ord, owner, created, linger]…]}], "final_table": n}"""
     from tools.lib import loopback
@@ -168,14 +248,16 @@ def run_impl(case):
     config.MAX_RETRIES = 0
     eff = {"streaming": bool(config.ITER_STREAMING), "lifetime": config.ITER_STREAM_LIFETIME, "linger": config.ITER_STREAM_LINGER}
     d, src, uri = _daemon()
-    d.streaming_responses.clear()
+    d.streaming_responses = HookDict()
+    RACE.update(in_disc=0, armed=None, count=0, k=0, open_key=None, victim=None)
     out = {"cfg": eff, "steps": [], "error": None}
     proxies, iters, sids = [], [], []      # sids[ordinal] = uuid string or None
     try:
-        with loopback.VirtualClock(float(T0)) as clock, loopback.Loopback(d) as net:
+        with _hook_clock()(float(T0)) as clock, loopback.Loopback(d) as net:
             for _ in range(case["nprox"]):
                 px = api.Proxy(uri)
                 px._pyroTimeout = 1
+                px._pyroMaxRetries = int(case.get("retries", 0))
                 proxies.append(px)
             bogus_id = str(uuid.UUID(int=0))
 
@@ -267,6 +349,25 @@ def run_impl(case):
                     elif k == "release":
                         proxies[op[1]]._pyroRelease()
                         resp = ["none", 0]
+                    elif k == "relrace":
+                        _, p, kk, inner = op
+                        if proxies[p]._pyroConnection is not None:
+                            if inner[0] == "close":
+                                o = inner[1]
+                                sid = bogus_id if (o < 0 or o >= len(sids) or sids[o] is None) else sids[o]
+                                fn = lambda sid=sid: d.objectsById[core.DAEMON_NAME].close_stream(sid)
+                                victim = sid
+                            else:
+                                fn = d._housekeeping
+                                victim = None
+                            RACE.update(armed=fn, count=0, k=kk, open_key=None, victim=victim)
+                            try:
+                                proxies[p]._pyroRelease()
+                            finally:
+                                fn2, RACE["armed"] = RACE["armed"], None
+                            if fn2 is not None:
+                                fn2()        # the handler had fewer preemption points: the other thread runs right after it
+                        resp = ["none", 0]
                     elif k == "reconnect":
                         proxies[op[1]]._pyroReconnect(tries=1)
                         resp = ["none", 0]
@@ -330,6 +431,15 @@ def _daemon():
             hk.stop.set()
             hk.join(10)
             d.transportServer.housekeeper = None
+        orig_disc = d._clientDisconnect
+
+        def disc(conn):
+            RACE["in_disc"] += 1
+            try:
+                return orig_disc(conn)
+            finally:
+                RACE["in_disc"] -= 1
+        d._clientDisconnect = disc
         _DAEMON.append((d, src, d.register(src, "src")))
     return _DAEMON[0]
 
@@ -378,6 +488,24 @@ def oracle(case, obs):
                     s["owner"], s["linger_since"] = None, now
                 else:
                     s["state"], s["why"] = "dead", "its connection ended and ITER_STREAM_LINGER is 0"
+
+    def housekeep():
+        for s in streams:
+            if s is None or s["state"] == "dead":
+                continue
+            if lifetime > 0:
+                age = now - s["created"]
+                if age > lifetime:
+                    s["state"], s["why"] = "dead", "lifetime exceeded"
+                    continue
+                if age == lifetime:
+                    s["state"] = "maybe"
+            if linger > 0 and s["linger_since"] is not None:
+                gone = now - s["linger_since"]
+                if gone > linger:
+                    s["state"], s["why"] = "dead", "linger period passed"
+                elif gone == linger:
+                    s["state"] = "maybe"
 
     def serve(o, conn, resp, what):
         """a request for the next item of stream o arrived over connection conn and was answered resp"""
@@ -518,7 +646,22 @@ def oracle(case, obs):
                 streams[o]["state"], streams[o]["why"] = "dead", "closed"
         elif k == "tick":
             now += op[1]
+        elif k == "relrace":
+            _, p, kk, inner = op
+            if pconn[p] is not None:
+                # whatever the interleaving, the outcome is that of the other thread's action and the disconnect, in
+                # either order: a stream closed / reaped meanwhile stays forgotten, the others linger or go
+                if inner[0] == "close":
+                    o = inner[1]
+                    if 0 <= o < len(streams) and streams[o] is not None:
+                        streams[o]["state"], streams[o]["why"] = "dead", "closed (while its connection was being disconnected)"
+                else:
+                    housekeep()
+                disconnect(pconn[p])
+                pconn[p] = None
         elif k == "hk":
+            housekeep()
+        if False:
             for s in streams:
                 if s is None or s["state"] == "dead":
                     continue
@@ -555,6 +698,14 @@ def oracle(case, obs):
 # ---------------------------------------------------------------- Gallina encodings
 def c_item(it):
     return ("Yield %s" if it[0] == "y" else "Raise %s") % cN(it[1])
+
+
+def c_hop(op):
+    if op[0] == "relrace":
+        inner = op[3]
+        ev = "Housekeep" if inner[0] == "hk" else "CloseStream 0%%N %s" % cN(inner[1] if inner[1] >= 0 else BOGUS)
+        return "HRace %s (%s)" % (cN(op[1]), ev)
+    return "HOp (%s)" % c_op(op)
 
 
 def c_op(op):
@@ -619,7 +770,7 @@ def c_case(case, obs):
     steps = clist(["(%s, %s)" % (c_resp(st["resp"]), clist([c_row([r[0], r[1], as_int(r[2]), as_int(r[3])]) for r in st["table"]]))
                    for st in obs["steps"]])
     return "{| k_cfg := %s; k_nprox := %s; k_ops := %s; k_obs := %s; k_final := %s |}" % (
-        ccfg, cN(case["nprox"]), clist([c_op(o) for o in case["ops"]]), steps, cN(obs["final_table"]))
+        ccfg, cN(case["nprox"]), clist([c_hop(o) for o in case["ops"]]), steps, cN(obs["final_table"]))
 
 
 # ---------------------------------------------------------------- generator
@@ -681,15 +832,15 @@ def gen_case(rng, long=False):
             continue
         r = rng.random()
         if style == "interleave":
-            weights = [("next", 60), ("nextf", 4), ("rawnext", 8), ("close", 6), ("release", 4), ("reconnect", 6), ("hk", 6), ("tick", 8), ("rawclose", 2)]
+            weights = [("next", 60), ("nextf", 4), ("rawnext", 8), ("close", 6), ("release", 4), ("relrace", 3), ("reconnect", 6), ("hk", 6), ("tick", 8), ("rawclose", 2)]
         elif style == "linger":
-            weights = [("next", 30), ("nextf", 9), ("rawnext", 10), ("close", 3), ("release", 14), ("reconnect", 14), ("hk", 12), ("tick", 16), ("rawclose", 1)]
+            weights = [("next", 30), ("nextf", 9), ("rawnext", 10), ("close", 3), ("release", 14), ("relrace", 8), ("reconnect", 14), ("hk", 12), ("tick", 16), ("rawclose", 1)]
         elif style == "lifetime":
-            weights = [("next", 40), ("nextf", 4), ("rawnext", 5), ("close", 3), ("release", 4), ("reconnect", 6), ("hk", 20), ("tick", 21), ("rawclose", 1)]
+            weights = [("next", 40), ("nextf", 4), ("rawnext", 5), ("close", 3), ("release", 4), ("relrace", 4), ("reconnect", 6), ("hk", 20), ("tick", 21), ("rawclose", 1)]
         elif style == "churn":
-            weights = [("next", 25), ("nextf", 5), ("rawnext", 10), ("close", 20), ("release", 10), ("reconnect", 10), ("hk", 8), ("tick", 10), ("rawclose", 7)]
+            weights = [("next", 25), ("nextf", 5), ("rawnext", 10), ("close", 20), ("release", 10), ("relrace", 8), ("reconnect", 10), ("hk", 8), ("tick", 10), ("rawclose", 7)]
         else:
-            weights = [("next", 40), ("nextf", 6), ("rawnext", 8), ("close", 8), ("release", 8), ("reconnect", 9), ("hk", 10), ("tick", 14), ("rawclose", 3)]
+            weights = [("next", 40), ("nextf", 6), ("rawnext", 8), ("close", 8), ("release", 8), ("relrace", 5), ("reconnect", 9), ("hk", 10), ("tick", 14), ("rawclose", 3)]
         tot = sum(w for _, w in weights)
         x = rng.random() * tot
         for k, w in weights:
@@ -716,6 +867,9 @@ def gen_case(rng, long=False):
                 ops.append(["next", h])
         elif k == "close":
             ops.append(["close", rng.randrange(nh)])
+        elif k == "relrace":
+            inner = ["close", rng.randrange(ns)] if rng.random() < 0.8 else ["hk"]
+            ops.append(["relrace", rng.randrange(nprox), rng.randint(1, 8), inner])
         elif k in ("release", "reconnect"):
             ops.append([k, rng.randrange(nprox)])
         elif k in ("rawnext", "rawclose"):
@@ -725,7 +879,10 @@ def gen_case(rng, long=False):
             ops.append(["hk"])
         else:
             ops.append(["tick", rng.choice(dts)])
-    return {"cfg": cfg, "nprox": nprox, "ops": ops}
+    case = {"cfg": cfg, "nprox": nprox, "ops": ops}
+    if rng.random() < 0.35:
+        case["retries"] = rng.choice([1, 2])
+    return case
 
 
 def targeted():
@@ -751,13 +908,22 @@ def targeted():
             out.append({"cfg": cfg, "nprox": 2, "ops": [["open", 0, "itr", three], ["release", 0], ["tick", gap], ["rawnext", 1, 0], ["hk"], ["tick", gap], ["hk"], ["rawnext", 1, 0]]})
         for kind in REQ_LOST + REPLY_LOST:
             for gap in (0, linger, linger + 1):
-                out.append({"cfg": cfg, "nprox": 1, "ops": [["open", 0, "gen", [["y", 1], ["y", 2], ["y", 3], ["y", 4]]], ["next", 0], ["nextf", 0, kind], ["next", 0],
+                out.append({"cfg": cfg, "nprox": 1, "retries": (gap + len(kind)) % 3, "ops": [["open", 0, "gen", [["y", 1], ["y", 2], ["y", 3], ["y", 4]]], ["next", 0], ["nextf", 0, kind], ["next", 0],
                                                             ["tick", gap], ["hk"], ["reconnect", 0], ["next", 0], ["next", 0], ["next", 0], ["next", 0]]})
             out.append({"cfg": cfg, "nprox": 1, "ops": [["open", 0, "itr", [["y", 1], ["r", 9]]], ["next", 0], ["nextf", 0, kind], ["reconnect", 0], ["next", 0], ["next", 0]]})
             out.append({"cfg": cfg, "nprox": 1, "ops": [["open", 0, "gen", [["y", 1]]], ["next", 0], ["nextf", 0, kind], ["reconnect", 0], ["next", 0], ["next", 0], ["nextf", 0, kind]]})
+        for kk in range(1, 8):
+            # the client closes one of several streams of a connection and releases the proxy right away
+            for victim in (0, 1, 2):
+                out.append({"cfg": cfg, "nprox": 2, "retries": kk % 3,
+                            "ops": [["open", 0, "gen", three], ["open", 0, "itr", three], ["open", 0, "gen", three], ["next", 1],
+                                    ["relrace", 0, kk, ["close", victim]], ["rawnext", 1, victim], ["reconnect", 0], ["next", victim], ["next", (victim + 1) % 3]]})
+            out.append({"cfg": cfg, "nprox": 2, "ops": [["open", 0, "gen", three], ["open", 1, "gen", three], ["release", 1], ["tick", linger + 1], ["open", 0, "itr", three],
+                                                        ["relrace", 0, kk, ["hk"]], ["rawnext", 1, 1], ["rawnext", 1, 0]]})
         out.append({"cfg": cfg, "nprox": 2, "ops": [["rawnext", 0, -1], ["rawclose", 1, -1], ["open", 0, "gen", three], ["rawclose", 1, 0], ["next", 0]]})
     for c in out:
         if not c["cfg"]["streaming"]:      # no client iterators exist: ask by (non-existent) id instead
+            c["ops"] = [o for o in c["ops"] if o[0] != "relrace" or True]
             c["ops"] = [(["rawnext", 0, o[1]] if o[0] in ("next", "nextf") else ["rawclose", 0, o[1]] if o[0] == "close" else o) for o in c["ops"]]
     cfg = {"streaming": True, "lifetime": 0, "linger": 30}
     for sv in [0] + [SPECIAL_BASE + i for i in range(N_SPECIAL)]:
@@ -778,7 +944,7 @@ def targeted():
 
 def gen_cases(ctx):
     rng = ctx.rng
-    cases = [gen_case(rng) for _ in range(ctx.n(1300, 15000))]
+    cases = [gen_case(rng) for _ in range(ctx.n(1150, 15000))]
     cases += [gen_case(rng, long=True) for _ in range(ctx.n(80, 1000))]
     return cases
 
